@@ -89,6 +89,15 @@ class POpt(PV):
         self.is_none, self.ref = is_none, ref
 
 
+class PSeq(PV):
+    """str / bytes value of unbounded symbolic length: characters arr[off + i] for 0 <= i < ln (a view: slicing keeps the
+    array and moves off / ln).  maxlen: a static upper bound of ln when the slice bounds differ by a constant."""
+    kind = "seq"
+
+    def __init__(self, arr, off, ln, maxlen=None):
+        self.arr, self.off, self.ln, self.maxlen = arr, off, ln, maxlen
+
+
 class PGhost(PV):
     """ghost (specification-only) state of any z3 sort; never read or written by the subject's code"""
     kind = "ghost"
@@ -192,6 +201,8 @@ def ival(v):
         return z3.IntVal(NONE_ADDR)
     if isinstance(v, POpt):
         return z3.If(v.is_none, z3.IntVal(NONE_ADDR), v.ref.addr)
+    if isinstance(v, PSeq):
+        return PAIR(v.off, v.off + v.ln)
     if isinstance(v, PTuple) and len(v.items) >= 2:
         # a tuple used as a dict key / set element: an injective pairing of the component identities
         # (PAIR is declared injective through its two projections, asserted once in TUPLE_AXIOMS)
@@ -349,6 +360,10 @@ class PyExec:
                 return
         self.oblige(st, "exc", exc, cond if allowed is None else z3.Or(cond, allowed), node, note)
         st.path.append(cond)
+
+    def tick_id(self):
+        self._tid = getattr(self, "_tid", 0) + 1
+        return self._tid
 
     def tick(self):
         self.steps += 1
@@ -646,6 +661,13 @@ class PyExec:
                 r = st.heap.mem(b.addr, ival(a))
             elif isinstance(b, PRef) and b.cls == "dict":
                 r = st.heap.has(b.addr, ival(a))
+            elif isinstance(b, PSeq) and isinstance(a, PStr) and len(a.codes) == 1:
+                if b.maxlen is not None:
+                    r = z3.Or(*[z3.And(j < b.ln, z3.Select(b.arr, b.off + j) == a.codes[0]) for j in range(b.maxlen)]) \
+                        if b.maxlen else z3.BoolVal(False)
+                else:
+                    j = z3.Int("j!in%d" % self.tick_id())
+                    r = z3.Exists([j], z3.And(j >= 0, j < b.ln, z3.Select(b.arr, b.off + j) == a.codes[0]))
             elif isinstance(b, PStr) and b.text is not None and isinstance(a, PAny) and self.opt.get("string_universe"):
                 # substring test `x in "<constant>"` for a string-valued cell x: strings are interned ids, so the test is
                 # decided over the finite universe of strings the contract says the cell can hold (obligation: it does)
@@ -767,8 +789,15 @@ class PyExec:
     def ev_Subscript(self, st, n):
         o = self.ev(st, n.value)
         if isinstance(n.slice, ast.Slice):
+            if isinstance(o, PSeq) and n.slice.step is None:
+                return self.seq_slice(st, o, n.slice, n)
             raise OutOfSubset("slice read")
         idx = self.ev(st, n.slice)
+        if isinstance(o, PSeq):
+            i = self.as_int(st, idx, n)
+            self.guard(st, "IndexError", z3.And(i >= -o.ln, i < o.ln), n)
+            j = z3.If(i < 0, i + o.ln, i)
+            return PStr([z3.Select(o.arr, o.off + j)])
         if isinstance(o, PTuple):
             i = self.as_int(st, idx, n)
             if z3.is_int_value(i):
@@ -788,6 +817,22 @@ class PyExec:
             self.guard(st, "KeyError", st.heap.has(o.addr, k), n)
             return self.cell_to_val(self.opt.get("dict_val_kind", "any"), st.heap.val(o.addr, k))
         raise OutOfSubset("subscript on %s" % o.kind)
+
+    def seq_slice(self, st, o, sl, n):
+        """s[a:b] with Python's clamping of both bounds into [0, len]"""
+        def norm(x):
+            return z3.If(x < 0, z3.If(x + o.ln < 0, 0, x + o.ln), z3.If(x > o.ln, o.ln, x))
+        lo_raw = self.as_int(st, self.ev(st, sl.lower), n) if sl.lower is not None else z3.IntVal(0)
+        hi_raw = self.as_int(st, self.ev(st, sl.upper), n) if sl.upper is not None else o.ln
+        lo, hi = norm(lo_raw), norm(hi_raw)
+        ln = z3.If(hi > lo, hi - lo, 0)
+        width = z3.simplify(hi_raw - lo_raw)
+        maxlen = width.as_long() if (z3.is_int_value(width) and sl.lower is not None and sl.upper is not None
+                                     and 0 <= width.as_long() <= 16) else None
+        # the static bound holds when both raw bounds have the same sign treatment; otherwise drop it
+        if maxlen is not None:
+            st.path.append(z3.Implies(z3.And(lo_raw >= 0, hi_raw >= 0), ln <= maxlen))
+        return PSeq(o.arr, o.off + lo, ln, maxlen)
 
     def ev_List(self, st, n):
         items = [self.ev(st, e) for e in n.elts]
@@ -862,6 +907,8 @@ class PyExec:
                 return PInt(len(v.items))
             if isinstance(v, PStr):
                 return PInt(len(v.codes))
+            if isinstance(v, PSeq):
+                return PInt(v.ln)
             raise OutOfSubset("len of %s" % v.kind)
         if name == "abs":
             t = self.as_int(st, a[0], n)
@@ -894,7 +941,20 @@ class PyExec:
         if dotted and dotted in self.callees and dotted.split(".")[0] not in st.vars:
             # module-level function reached through its module (hashlib.sha256, os.path.splitext): by contract
             return self.apply_callee(st, self.callees[dotted], self.args(st, n), n)
+        if meth == "join" and isinstance(recv_node, ast.Constant) and isinstance(recv_node.value, str):
+            a = self.args(st, n)
+            if isinstance(a[0], PRef) and a[0].cls == "list" and self.opt.get("elem_kind", {}).get("list") == "slice":
+                # joining recorded slices: the text itself is not modelled; contracts speak about the list of slices
+                return POpaque(self.fresh("joined"))
         recv = self.ev(st, recv_node)
+        if isinstance(recv, PSeq) and meth == "find":
+            a = self.args(st, n)
+            if len(a) == 1 and isinstance(a[0], PStr) and len(a[0].codes) == 1 and recv.maxlen is not None:
+                r = z3.IntVal(-1)
+                for j in reversed(range(recv.maxlen)):
+                    r = z3.If(z3.And(j < recv.ln, z3.Select(recv.arr, recv.off + j) == a[0].codes[0]), z3.IntVal(j), r)
+                return PInt(r)
+            raise OutOfSubset("str.find beyond a single character in a statically bounded slice")
         if meth in self.opt.get("identity_methods", ()) and isinstance(recv, (PInt, PAny)):
             # e.g. text.encode("UTF-8") on an abstract string identity: the same identity (injective re-encoding)
             self.args(st, n)
@@ -1091,7 +1151,7 @@ class PyExec:
         return outs
 
     def try_merge(self, states):
-        if len(states) <= 1:
+        if len(states) <= 1 or self.opt.get("merge") is False:
             return states
         out = [states[0]]
         for s in states[1:]:
